@@ -61,6 +61,8 @@ type c11Gen struct {
 	maxDepth  int
 	scopeLvl  bool // expressions outside a method body: no ArgN / LocalN
 	inBufSize bool // generating the size term of a Buffer
+	inWhile   bool // generating the predicate or body of a While (read in the deferred pass)
+	noBuf     bool // no Buffer here: something follows in the same deferred term
 	fills     []func()
 }
 
@@ -500,9 +502,9 @@ func (g *c11Gen) expr(m *c11Method, depth int, cs []*c11Method) c11Term {
 	}
 	switch {
 	case k < 3:
-		if g.rng.Intn(6) == 0 && !(g.inBufSize && g.open["D14"]) { // deferred Buffer as an operand; its size may itself be an invocation
+		if g.rng.Intn(6) == 0 && !((g.inBufSize || g.noBuf) && g.open["D14"]) { // deferred Buffer as an operand; its size may itself be an invocation
 			b := g.bufferTerm()
-			if len(cs) > 0 && depth < 2 && g.rng.Intn(3) == 0 {
+			if len(cs) > 0 && depth < 2 && g.rng.Intn(3) == 0 && !(g.inWhile && g.open["D6"]) {
 				was := g.inBufSize
 				g.inBufSize = true // no Buffer inside the size term of a Buffer (finding D14)
 				b.A = []c11Term{g.call(m, depth+2, cs)}
@@ -532,7 +534,7 @@ func (g *c11Gen) expr(m *c11Method, depth int, cs []*c11Method) c11Term {
 			if isMethod[c11Key(n.path)] {
 				continue // a method's name is an invocation, not a reference
 			}
-			if g.inBufSize && g.open["D15"] && n.bank && n.table == m.table {
+			if (g.inBufSize || g.inWhile) && g.open["D15"] && n.bank && n.table == m.table {
 				continue // Buffer size naming a unit of a BankField of the same table (finding D15)
 			}
 			par := n.path[:len(n.path)-1]
@@ -549,8 +551,10 @@ func (g *c11Gen) expr(m *c11Method, depth int, cs []*c11Method) c11Term {
 			return g.constTerm()
 		}
 		return c11Term{T: "ref", F: g.nameOf(m, vis[g.rng.Intn(len(vis))].path)}
-	case k == 7 && !g.open["D5"]:
+	case k == 7 && !g.open["D5"] && (!g.inWhile || !g.open["D6"]):
 		return c11Term{T: "op", S: "Add", A: []c11Term{g.expr(m, depth+1, cs), g.expr(m, depth+1, cs)}}
+	case k == 7 && g.inWhile: // inside a While operators are read properly, as long as they contain no names (finding D6)
+		return c11Term{T: "op", S: []string{"Add", "Subtract"}[g.rng.Intn(2)], A: []c11Term{g.simple(), g.simple()}}
 	default:
 		if len(cs) == 0 {
 			return g.constTerm()
@@ -573,23 +577,31 @@ func (g *c11Gen) scopeExpr(m *c11Method) c11Term {
 func (g *c11Gen) call(m *c11Method, depth int, cs []*c11Method) c11Term {
 	c := cs[g.rng.Intn(len(cs))]
 	t := c11Term{T: "call", F: g.nameOf(m, c.path), A: []c11Term{}}
+	was := g.noBuf
 	for i := 0; i < c.argc; i++ {
+		// inside a While no Buffer among the arguments of an invocation (finding D14)
+		g.noBuf = was || g.inWhile
 		t.A = append(t.A, g.expr(m, depth+1, cs))
 	}
+	g.noBuf = was
 	return t
 }
 
 func (g *c11Gen) stmts(m *c11Method, depth int, cs []*c11Method, n int) []c11Tok {
 	var out []c11Tok
 	for i := 0; i < n; i++ {
-		switch k := g.rng.Intn(10); {
+		// inside a While body a nested block may only be the last item of its block and has no Else (finding D7)
+		blockOK := depth < 3 && (!g.inWhile || !g.open["D7"] || i == n-1)
+		switch k := g.rng.Intn(11); {
 		case k < 2:
 			out = append(out, c11Tok{K: "stmt", Op: "ret", X: []c11Term{g.expr(m, 0, cs)}})
 		case k < 4:
 			out = append(out, c11Tok{K: "stmt", Op: "store", X: []c11Term{g.expr(m, 0, cs), {T: "local", N: []int{g.rng.Intn(8)}}}})
 		case k == 4:
 			out = append(out, c11Tok{K: "stmt", Op: []string{"inc", "dec"}[g.rng.Intn(2)], X: []c11Term{{T: "local", N: []int{g.rng.Intn(8)}}}})
-		case k < 7 && depth < 3:
+		case k < 7 && blockOK:
+			wasNB := g.noBuf
+			g.noBuf = g.noBuf || g.inWhile // no Buffer in a block nested in a While body (finding D14)
 			out = append(out, c11Tok{K: "if", X: []c11Term{g.expr(m, 1, cs)}, W: g.width()})
 			lo := 1
 			if !g.open["D9"] {
@@ -597,15 +609,29 @@ func (g *c11Gen) stmts(m *c11Method, depth int, cs []*c11Method, n int) []c11Tok
 			}
 			out = append(out, g.stmts(m, depth+1, cs, lo+g.rng.Intn(3))...)
 			out = append(out, c11Tok{K: "close"})
-			if g.rng.Intn(2) == 0 {
+			if g.rng.Intn(2) == 0 && !(g.inWhile && g.open["D7"]) {
 				out = append(out, c11Tok{K: "else", W: g.width()})
 				out = append(out, g.stmts(m, depth+1, cs, g.rng.Intn(3))...)
 				out = append(out, c11Tok{K: "close"})
 			}
-		case k == 7 && depth < 3 && !g.open["D7"]: // While (the whole class is excluded while finding D6/D7 is open)
-			out = append(out, c11Tok{K: "while", X: []c11Term{g.expr(m, 1, cs)}, W: g.width()})
-			out = append(out, g.stmts(m, depth+1, cs, 1+g.rng.Intn(3))...)
+			g.noBuf = wasNB
+		case k == 7 && blockOK && !g.open["D7"]: // While (whole class excluded while finding D7 is open); read in the deferred pass
+			was, wasNB := g.inWhile, g.noBuf
+			g.noBuf = g.noBuf || g.inWhile // a While nested in a While body: no Buffer (finding D14)
+			g.inWhile = true
+			var pred c11Term
+			switch g.rng.Intn(3) {
+			case 0:
+				pred = c11Term{T: "op", S: []string{"LLess", "LEqual", "LGreater"}[g.rng.Intn(3)], A: []c11Term{g.simple(), g.simple()}}
+			case 1:
+				pred = c11Term{T: "local", N: []int{g.rng.Intn(8)}}
+			default:
+				pred = g.expr(m, 1, cs)
+			}
+			out = append(out, c11Tok{K: "while", X: []c11Term{pred}, W: g.width()})
+			out = append(out, g.stmts(m, depth+1, cs, 1+g.rng.Intn(4))...)
 			out = append(out, c11Tok{K: "close"})
+			g.inWhile, g.noBuf = was, wasNB
 		default:
 			if len(cs) > 0 {
 				out = append(out, c11Tok{K: "stmt", Op: "call", X: []c11Term{g.call(m, 0, cs)}})
@@ -615,6 +641,17 @@ func (g *c11Gen) stmts(m *c11Method, depth int, cs []*c11Method, n int) []c11Tok
 		}
 	}
 	return out
+}
+
+// operand without names: a constant, ArgN or LocalN
+func (g *c11Gen) simple() c11Term {
+	switch g.rng.Intn(3) {
+	case 0:
+		return c11Term{T: "arg", N: []int{g.rng.Intn(7)}}
+	case 1:
+		return c11Term{T: "local", N: []int{g.rng.Intn(8)}}
+	}
+	return []c11Term{{T: "zero"}, {T: "one"}, {T: "byte", N: []int{g.rng.Intn(256)}}, {T: "word", N: []int{g.rng.Intn(65536)}}}[g.rng.Intn(4)]
 }
 
 // chain builds a dependency chain that the parser can only resolve in 3 (deep=false) or 4 (deep=true)
